@@ -40,19 +40,26 @@ Theorem C07_valid_framing : forall o bytes m, bytes_ok bytes -> decode_impl o by
 Proof. intros o bytes m H1 H2. exact (proj2 (proj2 (proj2 (proj2 (proj2 (proj2 (ok_implies_framing o bytes m H1 H2))))))). Qed.
 Print Assumptions C07_valid_framing.
 
-(* C07_valid for the stored topology handles (every vertex handle of an edge < n_vertices, every halfedge handle of a face
-   < 2 n_edges, every halfface handle of a cell < 2 n_faces, for entity counts below 2^30):
-     Theorem C07_valid_handles : decode_impl o bytes = ROk m -> counts below 2^30 -> mesh_valid m.
-   is NOT proved here (`_partial`): what is proved is the guard (C18_framing_handle: a handle is stored only if
-   handle + handle_offset < 2 * entities-read-so-far, and C07_invariant: entities-read-so-far never exceeds what the mesh holds);
-   assembling them into an invariant over the stored lists is missing.  For the hexahedral class with the topology check on,
-   the re-ordering path of HexahedralMeshTopologyKernel::add_cell can store InvalidHalfFaceHandle slots that it then passes to
-   TopologyKernel::add_cell; whether such a cell can pass the check is a property of the hexahedral kernel (C16), not of the reader.
-   The C++ oracle mesh_valid (harness/run_io.cc) checks the statement on every Ok result of every generated input. *)
+(* Success means a valid mesh: every vertex handle stored in an edge is below n_vertices, every halfedge handle stored in a face
+   below 2 n_edges, every halfface handle stored in a cell below 2 n_faces, and every property has one element per entity -
+   for files whose four header counts are below 2^30 (every half-entity handle representable as int) and every reader
+   configuration except the hexahedral class with the topology check on (`plain_cells`). *)
+Theorem C07_valid : forall o bytes m,
+  bytes_ok bytes -> small_counts bytes -> plain_cells o -> decode_impl o bytes = ROk m -> mesh_valid m.
+Proof. exact ok_mesh_valid. Qed.
+Print Assumptions C07_valid.
+
+(* C07_valid_hex_check (`_partial`, NOT proved): the same for o_mesh = MHex with o_check = true.  There the re-ordering path of
+   HexahedralMeshTopologyKernel::add_cell builds a list that can contain InvalidHalfFaceHandle slots and passes it to
+   TopologyKernel::add_cell; whether such a list can pass the manifoldness check (and so be stored) is a property of the
+   hexahedral kernel (C16), not of the reader.  What IS proved for that configuration: C07_total (no out-of-range access),
+   C07_valid_props, C07_valid_framing, and that every handle handed to add_face / add_cell is in range (C07_invariant +
+   C18_framing_handle).  The C++ oracle mesh_valid (harness/run_io.cc) checks the full statement on every Ok result of every
+   generated input, hexahedral class with the check on included. *)
 
 (* non-vacuity: the theorems speak about a reader that does accept files *)
 Example C07_nonvacuous :
-  decode_impl ex_opts (encode 3 1 ex_tet) = ROk ex_tet /\
+  decode_impl ex_opts (encode 3 1 ex_tet) = ROk ex_tet /\ plain_cells ex_opts /\
   (exists r s, decode_impl ex_opts (firstn 100 (encode 3 1 ex_tet)) = RErr r s) /\
   bytes_ok (encode 3 1 ex_tet).
-Proof. split; [exact ex_tet_roundtrip|]. split; [vm_compute; eauto|]. exact (proj1 ex_tet_small). Qed.
+Proof. split; [exact ex_tet_roundtrip|]. split; [exact I|]. split; [vm_compute; eauto|]. exact (proj1 ex_tet_small). Qed.
